@@ -687,7 +687,8 @@ def runPELine (r : Report) (sec : Nat) (l : Line) : Report :=
       -- the body is ignored: the same request without a body
       match parsePOp ("p" :: rest) with
       | some op =>
-        let toks := ("p" :: rest).takeWhile (· ≠ "B") ++ ["B", "none"]
+        -- the body starts at the LAST `B` token (a header may be named B; body keys are never upper case)
+        let toks := ((("p" :: rest).reverse.dropWhile (· ≠ "B")).drop 1).reverse ++ ["B", "none"]
         let _ := op
         runPLine (r.addCover "http-body-not-looked-at(withJsonBody=false)") sec { asP with op := toks }
       | none => r.mismatch sec l.idx "bad-op" (joinSp l.op)
